@@ -10,6 +10,7 @@ import (
 	"fmt"
 	"os"
 	"path/filepath"
+	"strings"
 	"sync/atomic"
 	"testing"
 	"time"
@@ -110,7 +111,7 @@ func (c *SCall) step(s *Model) (bool, *Model) {
 		return true, n
 	case "next", "sync":
 		return c.rerr == nil && c.rnext == s.Next, s
-	case "gc", "stat":
+	case "gc", "stat", "reopen":
 		return c.rerr == nil, s
 	case "consume":
 		if c.Off > s.Next {
@@ -351,9 +352,10 @@ func (g *winGen) call(kinds []string) *SCall {
 var allCallKinds = []string{"publish", "publish", "consume", "consume", "consumebykey", "get", "getbykey", "getbytime", "delete", "delete", "next", "sync", "gc", "stat"}
 
 type winEnv struct {
-	c   *WinCase
-	dir string
-	l   klevdb.Log
+	c    *WinCase
+	dir  string
+	opts klevdb.Options
+	l    klevdb.Log
 	m   *Model
 	clk atomic.Int64
 }
@@ -372,6 +374,7 @@ func newWinEnv(c *WinCase) (*winEnv, error) {
 		return nil, err
 	}
 	w.l = l
+	w.opts = o
 	return w, nil
 }
 
@@ -383,7 +386,23 @@ func (w *winEnv) cleanup() {
 
 func (w *winEnv) seq(c *SCall) {
 	c.inv = w.clk.Add(1)
-	c.run(w.l)
+	if c.Kind == "reopen" {
+		// close, remove every index file, reopen: every segment is lazy again and has to rebuild its index
+		c.rerr = w.l.Close()
+		if c.rerr == nil {
+			es, _ := filepath.Glob(filepath.Join(w.dir, "*.index"))
+			for _, f := range es {
+				_ = os.Remove(f)
+			}
+			var l klevdb.Log
+			l, c.rerr = klevdb.Open(w.dir, w.opts)
+			if c.rerr == nil {
+				w.l = l
+			}
+		}
+	} else {
+		c.run(w.l)
+	}
 	c.ret = w.clk.Add(1)
 	ok, ns := c.step(w.m)
 	if !ok {
@@ -424,6 +443,21 @@ func (w *winEnv) window(st *Stats) bool {
 		}
 	})
 	defer verifhook.SetPause(nil)
+	if strings.HasPrefix(c.Point, "fs:") {
+		// the same, at a file-system step of A (FS tap): A is held right after that step
+		site := strings.TrimPrefix(c.Point, "fs:")
+		verifhook.SetFS(func(op, s, p1, p2 string) {
+			if s == site && goid() == agid.Load() && skip.Add(-1) < 0 && armed.CompareAndSwap(true, false) {
+				close(hit)
+				if timed {
+					time.Sleep(2500 * time.Microsecond)
+					return
+				}
+				<-release
+			}
+		})
+		defer verifhook.SetFS(nil)
+	}
 	adone := make(chan struct{})
 	a := c.A
 	go func() {
@@ -557,7 +591,29 @@ func TestC08Windows(t *testing.T) {
 				}
 				return w.m.Live[uni(rt, (len(w.m.Live)+2)/3, "old_ix")].Off
 			}
-			switch pick(rt, []string{"publish", "publish", "delete", "delete", "read", "read", "gc"}, "a_kind") {
+			switch pick(rt, []string{"publish", "publish", "delete", "delete", "read", "read", "gc", "lazy", "fs"}, "a_kind") {
+			case "lazy":
+				// all index files removed and the log reopened: A rebuilds the index of an old segment and is held
+				// at a file-system step of that rebuild
+				p := &SCall{Kind: "reopen"}
+				c.Prefix = append(c.Prefix, p)
+				w.seq(p)
+				c.A = g.call([]string{"stat", "stat", "consume", "get", "getbykey", "consumebykey"})
+				if c.A.Kind == "consume" || c.A.Kind == "get" || c.A.Kind == "consumebykey" {
+					c.A.Off = oldLive()
+				}
+				c.Point = pick(rt, []string{"fs:index.OpenWriter", "fs:index.OpenWriter/header", "fs:index.Writer.Write", "fs:index.Writer.Sync", "fs:index.Write"}, "point")
+			case "fs":
+				if rapid.Bool().Draw(rt, "fs_publish") {
+					c.A = &SCall{Kind: "publish", Msgs: g.msgs(1 + uni(rt, 3, "n"))}
+					c.Point = pick(rt, []string{"fs:message.Writer.Write", "fs:index.Writer.Write", "fs:message.OpenWriter/header", "fs:message.Writer.Sync"}, "point")
+					if c.Point == "fs:message.Writer.Write" || c.Point == "fs:index.Writer.Write" {
+						c.Hit = uni(rt, len(c.A.Msgs), "hit")
+					}
+				} else {
+					c.A = g.call([]string{"delete"})
+					c.Point = pick(rt, []string{"fs:message.Writer.Write", "fs:message.Writer.Sync", "fs:index.Write", "fs:Rename/log", "fs:Override/log", "fs:Override/drop-index", "fs:Remove/index"}, "point")
+				}
 			case "publish":
 				c.A = &SCall{Kind: "publish", Msgs: g.msgs(1 + uni(rt, 3, "n"))}
 				c.Point = pick(rt, pointsByKind["publish"], "point")
@@ -608,6 +664,23 @@ func TestC08Windows(t *testing.T) {
 					return &SCall{Kind: "publish", Msgs: g.msgs(4 + uni(rt, 3, "n"))}
 				}
 				switch c.A.Kind {
+				case "stat", "consume", "get", "getbykey", "consumebykey", "getbytime":
+					if strings.HasPrefix(c.Point, "fs:") {
+						// another first touch of the same lazy segment
+						b := g.call([]string{"stat", "consume", "get", "getbykey", "stat"})
+						if b.Kind == "consume" || b.Kind == "get" {
+							b.Off = oldLive()
+						}
+						c.Bs = []*SCall{b}
+						if rapid.Bool().Draw(rt, "then_more") {
+							c.Bs = append(c.Bs, g.call([]string{"stat", "consume", "gc"}))
+						}
+						break
+					}
+					c.Bs = []*SCall{{Kind: "gc"}, {Kind: "delete", Set: []int64{oldLive()}}}
+					if rapid.Bool().Draw(rt, "swap") {
+						c.Bs[0], c.Bs[1] = c.Bs[1], c.Bs[0]
+					}
 				case "delete":
 					if c.Point != "delete.before-swap" && rapid.Bool().Draw(rt, "head_delete") {
 						c.A.Set = newest() // a delete in the writing segment ...
